@@ -49,8 +49,8 @@ M_Masks == {%s}
        ', '.join(tla(t) for t in linktypes), ('{' + ',\n  '.join(anchors) + '}') if anchors is not None else 'M_Menu', ', '.join(tla(o) for o in obskinds), ', '.join(masks), extra_defs)
 
 
-def cfg_text(max_circs, max_objs, max_steps, invariants=(), properties=(), view=None, min_emit=2, one_in=1, deep=False, max_non_anchor=99, init=False):
-    s = ('INIT M_Init\nNEXT Next\n' if init else 'SPECIFICATION Spec\n') + 'CONSTANTS MaxCircs = %d MaxObjs = %d MaxSteps = %d MinEmit = %d EmitOneIn = %d DeepRefs = %s MaxNonAnchor = %d\n' % (max_circs, max_objs, max_steps, min_emit, one_in, 'TRUE' if deep else 'FALSE', max_non_anchor)
+def cfg_text(max_circs, max_objs, max_steps, invariants=(), properties=(), view=None, min_emit=2, one_in=1, deep=False, max_non_anchor=99, init=False, salt=0):
+    s = ('INIT M_Init\nNEXT Next\n' if init else 'SPECIFICATION Spec\n') + 'CONSTANTS MaxCircs = %d MaxObjs = %d MaxSteps = %d MinEmit = %d EmitOneIn = %d EmitSalt = %d DeepRefs = %s MaxNonAnchor = %d\n' % (max_circs, max_objs, max_steps, min_emit, one_in, salt, 'TRUE' if deep else 'FALSE', max_non_anchor)
     s += ' Menu <- M_Menu Reps <- M_Reps Configs <- M_Configs Acts <- M_Acts LinkTypes <- M_LinkTypes Anchors <- M_Anchors ObsKinds <- M_ObsKinds Masks <- M_Masks\n'
     if view:
         s += 'VIEW %s\n' % view
@@ -79,7 +79,7 @@ def run_gen(name, menu, reps=(('fixed', 1),), configs=(DEFAULT_CFG,), acts=('New
             workers=1, seed=1, cap=None, base='CircuitGen', invariants=('EmitProgram',), properties=(), timeout=1500, view=None, min_emit=2, one_in=1, deep=False, anchors=None, max_non_anchor=99, init_defs='', obskinds=('full',), masks=()):
     mod = 'MCGen_' + name
     extra = ['-seed', str(seed)]
-    res = run_tlc(mod, cfg_text(max_circs, max_objs, max_steps, invariants, properties, view, min_emit, one_in, deep, max_non_anchor, bool(init_defs)), workers=workers,
+    res = run_tlc(mod, cfg_text(max_circs, max_objs, max_steps, invariants, properties, view, min_emit, one_in, deep, max_non_anchor, bool(init_defs), salt=(int(seed) * 7919) % 1000003), workers=workers,
                   simulate=simulate, depth=depth, extra=extra, name=mod, timeout=timeout,
                   modules={mod: wrapper(mod, menu, reps, configs, acts, linktypes, base=base, anchors=anchors, extra_defs=init_defs, obskinds=obskinds, masks=masks)})
     progs = parse_programs(res.out)
